@@ -4,43 +4,56 @@
 #include <tbox/util/buffer.h>
 #include <cstdint>
 #include <deque>
+#include <memory>
 using tbox::util::Buffer;
 
 struct Op { int k, a; };
 static const char *kNames[] = {"appX","appY","rsvX","rsv1X","fetchX","readX","readAllX","shrinkX","X=Y","X=mvY","swap","resetX",
-                               "cpctor","Y=X","fetchY","X=X","mvctor","shrinkY","readY"};
-enum { APPX, APPY, RSVX, RSV1X, FETCHX, READX, READALLX, SHRINKX, XEQY, XMVY, SWAP, RESETX, CPCTOR, YEQX, FETCHY, XEQX, MVCTOR, SHRINKY, READY, NK };
-static const int sizes[] = {0, 1, 2, 3, 5};
+                               "cpctor","Y=X","fetchY","X=X","mvctor","shrinkY","readY","overWrittenX"};
+enum { APPX, APPY, RSVX, RSV1X, FETCHX, READX, READALLX, SHRINKX, XEQY, XMVY, SWAP, RESETX, CPCTOR, YEQX, FETCHY, XEQX, MVCTOR, SHRINKY, READY, OVERW, NK };
+static const int sizes_small[] = {0, 1, 2, 3, 5};
+static const int sizes_big[] = {0, 1, 100, 255, 256, 257, 600};       // lane "big": default-constructed buffers (kInitialSize = 256)
+static const int HUGE_ = -2;                                           // stands for (size_t)-1 in consume / commit requests
 
 int main(int argc, char **argv) {
+  bool big = argc > 1 && !strcmp(argv[1], "big");
   size_t cap = argc > 1 ? atoi(argv[1]) : 0; size_t depth = argc > 2 ? atoi(argv[2]) : 6; size_t maxlive = argc > 3 ? atoi(argv[3]) : 12;
+  std::vector<int> sizes(big ? std::begin(sizes_big) : std::begin(sizes_small), big ? std::end(sizes_big) : std::end(sizes_small));
   hx::install_crash_reporter("C07-crash");
   hx::Explorer<Op> ex;
-  ex.name = "cap" + std::to_string(cap);
+  ex.name = big ? std::string("big") : "cap" + std::to_string(cap);
   ex.deadline_s = hx::deadline_from_env(600);
   ex.show = [](const Op &o) { char b[32]; snprintf(b, 32, "%s(%d)", kNames[o.k], o.a); return std::string(b); };
   ex.menu = [&](const std::vector<Op> &) {
     std::vector<Op> m;
     for (int k : {APPX, APPY, RSVX, RSV1X, FETCHX, READX, FETCHY, READY}) for (int a : sizes) m.push_back({k, a});
     m.push_back({APPX, -1}); m.push_back({APPY, -1});       // exactly the free space
+    m.push_back({READX, HUGE_}); m.push_back({READY, HUGE_});   // consume request of (size_t)-1: clamped like any over-long one
+    for (int a : {1, 5, HUGE_}) m.push_back({OVERW, a});      // fill the free space, then commit that much + a: clamped to the free space
     for (int k : {READALLX, SHRINKX, XEQY, XMVY, SWAP, RESETX, CPCTOR, YEQX, XEQX, MVCTOR, SHRINKY}) m.push_back({k, 0});
     return m; };
   ex.run = [&](const std::vector<Op> &h, std::string &viol) {
-    Buffer X(cap), Y(cap); std::deque<uint8_t> mx, my; uint8_t ctr = 1; uint8_t tmp[64];
+    std::unique_ptr<Buffer> xp(big ? new Buffer() : new Buffer(cap)), yp(big ? new Buffer() : new Buffer(cap)); Buffer &X = *xp, &Y = *yp;
+    std::deque<uint8_t> mx, my; uint8_t ctr = 1; uint8_t tmp[1024];
+    auto next = [&]() { uint8_t c = ctr; ctr = ctr >= 251 ? 1 : ctr + 1; return c; };     // never 0, period 251 (a period-256 shift cannot hide)
     size_t wx = 0, rx = 0, wy = 0, ry = 0;   // bytes written / consumed per buffer (size law)
     auto chk = [&](Buffer &b, std::deque<uint8_t> &m, const char *n) {
       if (b.readableSize() != m.size()) { viol = std::string("size-mismatch ") + n; return; }
       for (size_t i = 0; i < m.size(); i++) if (b.readableBegin()[i] != m[i]) { viol = std::string("content-mismatch ") + n; return; } };
     auto app = [&](Buffer &b, std::deque<uint8_t> &m, int a) {
       size_t n = a < 0 ? b.writableSize() : (size_t)a; if (m.size() + n > maxlive || n > sizeof tmp) return;
-      for (size_t i = 0; i < n; i++) { tmp[i] = ctr; m.push_back(ctr++); }
-      if (b.append(tmp, n) != n) viol = "append-return"; };
+      std::unique_ptr<uint8_t[]> src(new uint8_t[n]);          // exact-size heap source: ASan sees a read past the n bytes given
+      for (size_t i = 0; i < n; i++) { src[i] = next(); m.push_back(src[i]); }
+      if (b.append(src.get(), n) != n) viol = "append-return"; };
     auto fetch = [&](Buffer &b, std::deque<uint8_t> &m, int a) {
-      memset(tmp, 0, sizeof tmp); size_t n = b.fetch(tmp, a); size_t e = std::min<size_t>(a, m.size());
+      std::unique_ptr<uint8_t[]> dst(new uint8_t[a]);          // exact-size heap destination: ASan sees a write past the a bytes asked for
+      memset(dst.get(), 0, a); size_t n = b.fetch(dst.get(), a); size_t e = std::min<size_t>(a, m.size());
       if (n != e) { viol = "fetch-count"; return; }
-      for (size_t i = 0; i < n; i++) { if (tmp[i] != m.front()) viol = "fetch-content"; m.pop_front(); } };
+      for (size_t i = 0; i < n; i++) { if (dst[i] != m.front()) viol = "fetch-content"; m.pop_front(); }
+      for (size_t i = n; i < (size_t)a; i++) if (dst[i] != 0) viol = "fetch-wrote-more-than-it-returned"; };
     auto hasread = [&](Buffer &b, std::deque<uint8_t> &m, int a) {   // over-long hasRead discards everything (documented clamp)
-      size_t e = std::min<size_t>(a, m.size()); b.hasRead(a); if ((size_t)a > e) m.clear(); else for (size_t i = 0; i < e; i++) m.pop_front(); };
+      size_t req = a == HUGE_ ? (size_t)-1 : (size_t)a;
+      size_t e = std::min<size_t>(req, m.size()); b.hasRead(req); if (req > e) m.clear(); else for (size_t i = 0; i < e; i++) m.pop_front(); };
     for (auto &o : h) {
       switch (o.k) {
         case APPX: app(X, mx, o.a); break;
@@ -49,7 +62,11 @@ int main(int argc, char **argv) {
           if (!X.ensureWritableSize(r)) { viol = "ensure-false"; break; }
           if (X.writableSize() < r) { viol = "ensure-too-small"; break; }
           if (r > 0 && X.writableBegin() == nullptr) { viol = "writableBegin-null"; break; }
-          for (size_t i = 0; i < n; i++) { X.writableBegin()[i] = ctr; mx.push_back(ctr++); } X.hasWritten(n); } break;
+          for (size_t i = 0; i < n; i++) { uint8_t c = next(); X.writableBegin()[i] = c; mx.push_back(c); } X.hasWritten(n); } break;
+        case OVERW: { size_t w = X.writableSize(); if (mx.size() + w > maxlive) break;       // over-long commit: clamped to what is writable
+          for (size_t i = 0; i < w; i++) { uint8_t c = next(); X.writableBegin()[i] = c; mx.push_back(c); }
+          X.hasWritten(o.a == HUGE_ ? (size_t)-1 : w + (size_t)o.a);
+          if (X.writableSize() != 0) viol = "over-long-commit-leaves-writable-space"; } break;
         case FETCHX: fetch(X, mx, o.a); break;
         case FETCHY: fetch(Y, my, o.a); break;
         case READX: hasread(X, mx, o.a); break;
@@ -59,7 +76,7 @@ int main(int argc, char **argv) {
         case SHRINKY: Y.shrink(); break;
         case XEQY: X = Y; mx = my; break;
         case YEQX: Y = X; my = mx; break;
-        case XEQX: { Buffer &r = X; X = r; Buffer &r2 = X; X = std::move(r2); } break;   // self copy- and move-assign are no-ops
+        case XEQX: { Buffer &r = X; X = r; Buffer &r2 = X; X = std::move(r2); X.swap(r2); } break;   // self copy-assign, move-assign and swap are no-ops
         case XMVY: X = std::move(Y); mx = my; my.clear(); if (Y.readableSize() != 0) viol = "moved-from-not-empty"; break;
         case SWAP: X.swap(Y); mx.swap(my); break;
         case RESETX: X.reset(); mx.clear(); if (X.readableSize() != 0 || X.writableSize() != 0) viol = "reset-not-empty"; break;
@@ -67,8 +84,8 @@ int main(int argc, char **argv) {
           if (mx.size() + 2 <= maxlive) { app(X, mx, 2); }
           X.hasRead(1); if (!mx.empty()) mx.pop_front();
           chk(Z, mz, "copy-after-source-mutation"); if (!viol.empty()) break;
-          uint8_t z = 0xEE; Z.append(&z, 1); Z.hasRead(1); if (!mz.empty()) mz.pop_front(); mz.size() ? (void)0 : (void)0;
-          if (!mz.empty() || true) { /* Z mutated; X must be unaffected */ }
+          uint8_t z = 0xEE; mz.push_back(z); Z.append(&z, 1); Z.hasRead(1); mz.pop_front();     // the copy is mutated (a fresh clone has no spare room: grow path)
+          chk(Z, mz, "copy-after-own-mutation"); if (!viol.empty()) break;
           chk(X, mx, "source-after-copy-mutation"); } break;
         case MVCTOR: { Buffer Z(std::move(X)); if (X.readableSize() != 0) { viol = "moved-from-not-empty"; break; }
           uint8_t z = 0x77; if (X.append(&z, 1) != 1 || X.readableSize() != 1 || *X.readableBegin() != 0x77) { viol = "moved-from-not-reusable"; break; }
